@@ -219,7 +219,7 @@ def eval (opq : Opaque) (ρ : Env) : Expr → EM Value
   | .set _ vs => do
       let xs ← evalList opq ρ vs
       let ps ← xs.mapM asPrim
-      pure (.set ps)
+      pure (.set ps.eraseDups)
   | .range _ lo hi a b => do
       let l ← eval opq ρ lo; let h ← eval opq ρ hi
       let pl ← asPrim l; let ph ← asPrim h
